@@ -326,4 +326,49 @@ def register(_reg, _mt, STD):  # noqa: ANN001
     _extend('C14', [round5.rule_constructor_uses_field_converters])
     _extend('C18', [round5.rule_constructor_uses_field_converters])
     _extend('C17', [round5.rule_bindings_scoped_to_base, round5.rule_parameters_from_all_bases])
+    _extend('C01', [round5.rule_annotation_identity])
+    # round 8
+    for pid_ in ('C01', 'C03', 'C05', 'C19'):
+        _extend(pid_, [round5.rule_conversion_result_used])
+    for pid_ in ('C08', 'C04'):
+        _extend(pid_, [round5.rule_no_printf_exception_args, round5.rule_errors_render_lazily])
+    for pid_ in ('C10', 'C19'):
+        _extend(pid_, [round5.rule_no_third_party_state])
+    for pid_ in ('C14', 'C09'):
+        _extend(pid_, [round5.rule_no_instance_dict_writes])
+    for pid_ in ('C13', 'C12'):
+        _extend(pid_, [round5.rule_tagged_variants_unchanged])
+    for pid_ in ('C11', 'C13'):
+        _extend(pid_, [round5.rule_condition_wraps_inner_as_given])
+    for pid_ in ('C15', 'C14'):
+        _extend(pid_, [round5.rule_field_forwards_arguments])
+    _extend('C02', [round5.rule_field_settings_copied])
+    for pid_ in ('C05', 'C19'):
+        _extend(pid_, [round5.rule_scalar_rows_write_interchange])
+    _extend('C13', [round5.rule_broadcast_fallback])
+    _extend('C16', [round5.rule_explicit_hash_predicate, round5.rule_generated_methods_gated_on_own_namespace])
+    _extend('C17', [round5.rule_declaring_class_is_last])
+    for pid_ in ('C20', 'C15'):
+        _extend(pid_, [round5.rule_make_field_gets_class_styles])
+    for pid_ in ('C12', 'C04', 'C08'):
+        _extend(pid_, [round5.rule_declared_values_not_sorted_raw])
+    _extend('C08', [round5.rule_list_phrase_keeps_every_word])
+    for pid_ in ('C10', 'C01', 'C19'):
+        _extend(pid_, [round5.rule_converter_cache_keyed_by_identity])
+    _extend('C11', [dispatch.rule_c18_r1_order])
+    _extend('C17', [round5.rule_specialisation_cache_holds_class])
+    # round 8: rules that are necessary conditions of a sibling property as well
+    for pid_ in ('C01', 'C03', 'C04'):
+        _extend(pid_, [construction.rule_c14_r2])           # the from-dict path is recognised by `is not None`
+    for pid_ in ('C02', 'C07', 'C12'):
+        _extend(pid_, [extra.rule_keycache_keepalive])                   # cache entries keep their arguments alive
+    _extend('C02', [classes_rules.rule_c17_r7])
+    _extend('C03', [gates.rule_c02_r1])
+    for pid_ in ('C05', 'C14'):
+        _extend(pid_, [classes_rules.rule_c15_r2, classes_rules.rule_c15_r4])
+    _extend('C06', [unions.rule_c12_r1, round5.rule_supplied_values_converted])
+    _extend('C11', [round5.rule_supplied_values_converted])
+    _extend('C07', [round5.rule_one_field_list])
+    _extend('C09', [classes_rules.rule_c16_r5])
+    _extend('C20', [agreement.rule_c05_r4])
     _extend('C20', [rename.rule_c20_r6, rename.rule_c20_r7, round5.rule_style_guard_agrees])
